@@ -180,7 +180,7 @@ def _make_async_cond() -> Any:
     return acond
 
 
-def check_misuse(res: CheckResult, ic: Any) -> None:
+def check_misuse(res: CheckResult, ic: Any, only: Any = None) -> None:
     r, cells = table_cells("misuse")
     if not r.ok:
         raise MachineryError("ICTables/misuse: {}".format(r.violated or r.error))
@@ -191,6 +191,8 @@ def check_misuse(res: CheckResult, ic: Any) -> None:
         cell = ex["cell"]
         if cell["d"] == "snapshot" and cell["c"] == "getter":
             continue  # a capture of a property getter has no argument to name: not constructible
+        if only is not None and not only(cell):
+            continue
         got = observe_misuse(ic, cell)
         n += 1
         want = (ex["moment"], ex["exc"])
